@@ -12,6 +12,14 @@ CLAIMED = {
     text="store, pop, drain_metric, get_datapoints and the cache-query handlers are verified from source against whole-view contracts (data' = data[m][ts:=v] / data \\ {m}, result = strictly sorted items) and the lock invariant size == sum of held datapoints, for every state and input; interleavings with the other thread are covered by rely/guarantee (havoc under the proved guarantee of store between atomic steps), not by sampling schedules.",
     note="A-GIL (atomic dict ops, Lock is a mutex), A-THREADS (one writer thread), container models of dict/defaultdict/deque/sorted (A-LIB), strategy.choose_item through its interface contract, the history induction accepted = held + drained is a meta-step over the per-operation contracts; home-made VC generator (A-ENGINE), z3/cvc5 (A-SMT)",
     tech=TECH + "; lock invariant + rely/guarantee for the two threads"),
+  'C03': dict(
+    text="One iteration of the writer loop (writeCachedDataPoints, all four loops cut by invariants) is verified from source from an arbitrary state with a fully nondeterministic backend (exists/create/write may return anything or raise anything, no bound on faults): a drained batch leads to exactly one write for its own metric carrying exactly its points after exists() said yes and is then counted as committed, or to an errors count + log.err when write raises, or to a droppedCreates count when the file is missing; nothing is written twice or without a batch; an exists() failure escapes to writeForever, which logs it and backs off.",
+    note="A-BACKEND (backend calls are arbitrary and do not touch carbon's state), batch ownership from C02's pop contract, drain_metric and TokenBucket through their contracts, instrumentation/tagQueue/log do not raise; per-iteration contract + 'each batch is taken by exactly one iteration' gives the per-pass statement (meta-step); A-ENGINE, A-SMT",
+    tech=TECH + "; effect-log (ghost) contract per loop iteration, nondeterministic externals"),
+  'C04': dict(
+    text="writeForever is verified from source under a rely that lets the storing thread act and the stop arrive between any two atomic steps of the writer (including inside time.sleep): on return nothing accepted before the stop is left behind unless the final pass was cut short by a logged backend failure; shutdownModifyUpdateSpeed's postcondition and the shutdown wiring are obligations.",
+    note="A-TWISTED-DEFER (running turns False once, the reactor thread is quiescent afterwards, before-shutdown triggers run first), contract of writeCachedDataPoints (normal return = nothing eligible left) from the iteration unit, timesorted 'eligible' from C17; ghost flags running/dirty abstract the cache contents; A-ENGINE, A-SMT",
+    tech=TECH + "; ghost state + rely/guarantee over the stop event"),
   'C10': dict(
     text="_MetricCache.store is verified from source for every cache state, datapoint and limit setting: size never exceeds CACHE_SIZE_HARD_MAX, a refusal fires cacheOverflow exactly once and leaves the whole view (keys, contents, new_metrics, size) unchanged, a duplicate timestamp is updated even when full. conf.py's derivation of the limits and events.py's handlers are checked syntactically.",
     note="store's body is one lock region (A-GIL); MAX_CACHE_SIZE is +inf or a real >= 1; events modelled by their default handlers; bucketmax store() is covered in C17; A-ENGINE, A-SMT",
